@@ -118,6 +118,7 @@ type State struct {
 	dead    bool
 	touched map[string]bool // heaps written since entry (for frame checking)
 	defFact map[string]bool // keys of definitional-instance facts
+	witnessOf map[string]*Term // witnesses of the most recent call of a callee on this path: "Set.f"
 }
 
 type critSection struct {
@@ -144,6 +145,10 @@ func (s *State) clone() *State {
 		cs:    append([]critSection(nil), s.cs...),
 		touched: make(map[string]bool, len(s.touched)),
 		defFact: s.defFact,
+		witnessOf: make(map[string]*Term, len(s.witnessOf)),
+	}
+	for k, v := range s.witnessOf {
+		n.witnessOf[k] = v
 	}
 	for k, v := range s.cellv {
 		n.cellv[k] = v
